@@ -129,6 +129,70 @@ pub fn check_values(c: &CwCase) -> Verdict {
         let i = (0..back.len().min(c.cw.len())).find(|i| back[*i] != c.cw[*i]);
         return fail(format!("{}: codewords() does not invert new_with_codewords() (first difference at {:?})", sym.name, i));
     }
+    // reading the populated matrix through the traversal API gives the same codewords (MSB first), a
+    // visitor that does not write leaves the matrix untouched, and one that flips a single module
+    // changes exactly that bit
+    let res = guard(|| {
+        let mut m = MatrixMap::new_with_codewords(&c.cw, size);
+        let mut seen_mut = vec![0u8; sym.total()];
+        m.traverse_mut(|i, bits| {
+            let mut v = 0u8;
+            for b in bits.iter() {
+                v = v << 1 | (**b as u8);
+            }
+            if i < seen_mut.len() {
+                seen_mut[i] = v;
+            }
+        });
+        let after_read = m.codewords();
+        let mut seen = vec![0u8; sym.total()];
+        m.traverse(|i, bits| {
+            let mut v = 0u8;
+            for b in bits.iter() {
+                v = v << 1 | (*b as u8);
+            }
+            if i < seen.len() {
+                seen[i] = v;
+            }
+        });
+        if seen != seen_mut {
+            seen_mut = vec![]; // reported below as a mismatch
+        }
+        let target = (c.cw.iter().map(|x| *x as usize).sum::<usize>() + c.cw.len()) % sym.total();
+        m.traverse_mut(|i, bits| {
+            if i == target {
+                *bits[7] = !*bits[7];
+            }
+        });
+        (seen_mut, after_read, m.codewords(), target)
+    });
+    match res {
+        Ok((seen_mut, after_read, after_flip, target)) => {
+            if seen_mut != c.cw {
+                let i = (0..seen_mut.len()).find(|i| seen_mut[*i] != c.cw[*i]);
+                return fail(format!("{}: a reading visitor of traverse_mut sees different codewords than were written (first difference at {:?})", sym.name, i));
+            }
+            if after_read != c.cw {
+                return fail(format!("{}: traverse_mut with a visitor that writes nothing changed the matrix", sym.name));
+            }
+            let mut want = c.cw.clone();
+            want[target] ^= 1;
+            if after_flip != want {
+                return fail(format!("{}: flipping the last module of codeword {} through traverse_mut does not change exactly that bit", sym.name, target));
+            }
+        }
+        Err(p) => return fail(format!("{}: traverse_mut on a populated matrix panicked: {}", sym.name, p)),
+    }
+    // a slice with surplus codewords behind the symbol's own (the documentation only forbids too short
+    // ones) must place the symbol's codewords identically, fixed corner pattern included
+    let mut longer = c.cw.clone();
+    longer.extend_from_slice(&[0xA5, 0x5A, 0xFF]);
+    if let Ok(b2) = guard(|| MatrixMap::new_with_codewords(&longer, size).bitmap().bits().to_vec()) {
+        if b2 != bits {
+            let i = (0..b2.len().min(bits.len())).find(|i| b2[*i] != bits[*i]);
+            return fail(format!("{}: surplus codewords behind the symbol's own change the rendering (first difference at module {:?})", sym.name, i));
+        }
+    }
     Verdict::Pass(Pass::new(format!("values/{}", c.stratum), c.cw.iter().any(|x| *x != 0)))
 }
 
